@@ -42,7 +42,11 @@ RULE = ("clouds of 6..24 pairwise distinct points (jittered lattice or uniform d
         "(qshape) query as 2-D, (1,n) against (n,), scalars, 0-d arrays, one-element arrays, and queries "
         "with as many points as the data but another shape; (qbroadcast) for every gridder query easting / northing of "
         "DIFFERENT sizes that broadcast - (a,) with (b,1), (1,a) with (b,1), (a,1) with (b,), scalar with (b,), (a,1,1) with "
-        "(1,b,1) - against the base execution on the raveled broadcast arrays; (layout-lines) for every gridder the same scattered "
+        "(1,b,1) - against the base execution on the raveled broadcast arrays; (layout-nd) for every gridder the same points as 3-D and "
+        "4-D arrays - (2,2,2), (2,3,2), (3,3,2), (2,3,4), (2,2,2,2), (2,1,3,2) ... - for the fit arguments (coordinates, data, weights in "
+        "the data's shape or raveled, optionally an extra coordinate), the query, or both; C order, Fortran order, strided, reversed and "
+        "transposed views; must agree with the 1-D call (pure re-layout: tolerance with min(kappa, 1e10)); "
+        "(layout-lines) for every gridder the same scattered "
         "points as 1-D arrays and as 2-D (n_lines, n_samples), (n,1), (1,n) arrays that are NOT meshgrids (each point jittered by up "
         "to 0.15 of the line / sample spacing), fit and query alike, at coordinate offsets 0, 1, 30, 1e3, UTM-like (extent 4..25 m "
         "at easting 5e5, northing 7.4e6) and 1e7 x the extent; a pure re-layout, so no conditioning skip: tolerance with "
@@ -348,7 +352,7 @@ def relayout(a, shape, style, dtype=None):
     elif style == "reversed":       # negative strides
         out = b[::-1].copy()[::-1]
     elif style == "transposed-view":  # the transpose of a C array holding the transposed values (Fortran-ordered, not owning)
-        out = np.ascontiguousarray(b.T).T if b.ndim == 2 else b
+        out = np.ascontiguousarray(b.T).T if b.ndim >= 2 else b
     elif style == "series":
         import pandas as pd
         assert b.ndim == 1
@@ -647,6 +651,35 @@ def inside_hull(spec):
     return bool(np.all(tri.find_simplex(np.column_stack([spec["qe"], spec["qn"]])) >= 0))
 
 
+ND_SHAPES = {8: [(2, 2, 2), (2, 2, 2, 1), (1, 2, 2, 2)], 12: [(2, 3, 2), (3, 2, 2), (2, 2, 3), (2, 1, 3, 2)], 16: [(2, 2, 2, 2), (4, 2, 2), (2, 4, 2)],
+             18: [(3, 3, 2), (2, 3, 3)], 24: [(2, 3, 4), (4, 3, 2), (2, 2, 3, 2)], 6: [(1, 3, 2), (3, 1, 2)]}
+STYLES_ND = ["c", "f", "f", "strided", "strided-rows", "reversed", "transposed-view"]
+
+
+def v_layout_nd(rnd, spec, mode):
+    """the same points as 3-D (and 4-D) arrays: fit arguments, query, or both; C / Fortran order and views"""
+    n, m = len(spec["e"]), len(spec["qe"])
+    v = {"styles": {}, "same_arithmetic": True}
+    if mode in ("fit", "both"):
+        v["fit_shape"] = list(rnd.choice(ND_SHAPES[n]))
+        for key in ["e", "n", "x"] + ["d%d" % i for i in range(spec["ncomp"])]:
+            v["styles"][key] = rnd.choice(STYLES_ND)
+        if spec["w"] is not None:
+            if rnd.random() < 0.3:
+                v["w_ravel"] = True
+                v["styles"]["w"] = rnd.choice(STYLES_1D + ["list"])
+            else:
+                v["styles"]["w"] = rnd.choice(STYLES_ND + ["list"])
+        if rnd.random() < 0.4:
+            big = 10.0 * max(1.0, max(abs(x) for x in spec["e"] + spec["n"]))
+            v["extra_fit"] = [[rnd.uniform(-big, big) for _ in range(n)]]
+    if mode in ("query", "both"):
+        sh = list(rnd.choice(ND_SHAPES[m]))
+        v["q_shape_e"], v["q_shape_n"] = sh, sh
+        v["styles"]["qe"], v["styles"]["qn"] = rnd.choice(STYLES_ND + ["list"]), rnd.choice(STYLES_ND)
+    return v
+
+
 LINE_SHAPES = [(3, 4), (4, 3), (2, 5), (5, 2), (4, 4), (3, 5), (4, 6), (5, 4), (2, 6), (6, 3)]
 LINE_OFFSETS = ["zero", "1x", "30x", "1e3x", "utm", "utm", "1e7x"]
 
@@ -764,7 +797,7 @@ def npts(rnd, name):
 
 def generate(tier, seed):
     rnd = random.Random(seed)
-    reps = 1 if tier == "quick" else 16
+    reps = 1 if tier == "quick" else 12
     cases = []
     for rep in range(reps):
         for gi, name in enumerate(ALL):
@@ -803,6 +836,16 @@ def generate(tier, seed):
             # integer lattice clouds tie for k-d tree queries only at lattice queries: the query stays non-integer here
             spec = problem(rnd, g, n=npts(rnd, name), int_coords="coords" in what, int_data="data" in what)
             cases.append(pair_case(g, spec, v_dtype(rnd, what, j + rep), "dtype-fit/" + name))
+        # the same points as 3-D / 4-D arrays (every gridder): fit arguments, query, both
+        for gi, name in enumerate(ALL):
+            g = GRIDDERS[name]
+            small = name in SMALL_VEC
+            for t, mode in enumerate(["fit", "both", "query"]):
+                if t == 2 and (gi + rep) % 2:
+                    continue
+                n = rnd.choice([8, 12]) if small else rnd.choice([12, 16, 18, 24] if g.minpts > 8 else [8, 12, 16, 18, 24])
+                spec = problem(rnd, g, n=n, m=rnd.choice([6, 8, 12]), weighted=True if (g.weights and t < 2) else None)
+                cases.append(pair_case(g, spec, v_layout_nd(rnd, spec, mode), "layout-nd-%s/%s" % (mode, name)))
         # the same scattered points as 1-D arrays and as 2-D (n_lines, n_samples), (n,1), (1,n) arrays that are not meshgrids,
         # at coordinate offsets from 0 to 1e7 x the extent (every gridder)
         for gi, name in enumerate(ALL):
